@@ -6,7 +6,9 @@ EXPLANATION = ("(1) gix_index::decode: Entry values are constructed only in entr
                "every decoding path (single-threaded and offset-table/threaded) reaches entries through entries::chunk; worker results are joined "
                "through InOrderIter; (2) for every function that decodes git's stat_data (load_one for entries, decode::stat for the untracked-cache "
                "extension) the map `k-th read_u32 -> Stat field` is extracted from MIR and must be git's order ctime.secs, ctime.nsecs, mtime.secs, "
-               "mtime.nsecs, dev, ino, [mode], uid, gid, size. Equality of all decoded content with what git stored is not decided.")
+               "mtime.nsecs, dev, ino, [mode], uid, gid, size. (3) no remainder-dropping or filtering adaptor "
+               "(chunks_exact, windows, take, skip, step_by, filter, truncate, ...) is applied to the IEOT offset list, because the threaded path never re-counts "
+               "decoded entries. Equality of all decoded content with what git stored is not decided.")
 
 
 def run(db, chk):
@@ -24,6 +26,26 @@ def run(db, chk):
         chk.ob("decoder-reached-from-from_bytes", cc.split("gix_index::")[-1], cc in reach, "not reachable from State::from_bytes", key="decoder-reached|%s" % cc)
     inorder = [g for g in [fb] + db.closures_of(fb) for c in g.calls() if c.is_(r"InOrderIter<T, I> as core::convert::From<I>>::from$|parallel::in_order::InOrderIter")]
     chk.ob("threads-joined-in-order", "from_bytes uses InOrderIter", bool(inorder), "", "%s:%d" % (fb.file, fb.line), key="threads-joined-in-order")
+    # (1b) the offset table is partitioned among workers without dropping blocks: no remainder-dropping / filtering adaptor is applied to a
+    # slice or iterator of index_entry_offset_table::Offset anywhere in the decoder (the threaded path never re-counts the decoded entries)
+    lossy = r"::(chunks_exact|chunks_exact_mut|rchunks_exact|array_chunks|as_chunks|as_rchunks|array_windows|windows|split_off|truncate|pop|drain)$|Iterator::(take|skip|step_by|take_while|skip_while|filter|filter_map)$"
+    fam = [g for g in dec if "::decode::" in g.name]
+    n_part = 0
+    for g in fam:
+        for c in g.calls():
+            if not c.args or "p" not in c.args[0]:
+                continue
+            ty = g.locals[c.args[0]["p"][0]] if isinstance(c.args[0]["p"][0], int) else ""
+            if "index_entry_offset_table::Offset" not in ty:
+                continue
+            n_part += 1
+            if c.is_(lossy):
+                chk.ob("offset-table-partition-total", "%s %s" % (g.name, c.name.split("::")[-1]), False,
+                       "%s on the IEOT offsets can drop blocks; their entries would never be decoded and nothing re-counts them" % c.name, c.where(),
+                       key="offset-table-partition|%s|%s" % (g.name, c.name.split("::")[-1]))
+    chk.floor("calls on the IEOT offset list in the decoder (partition + iteration)", n_part, 3)
+    if not any(o["rule"] == "offset-table-partition-total" for o in chk.obligations):
+        chk.ob("offset-table-partition-total", "%d calls on the offset list" % n_part, True)
     # field sequences
     n = 0
     for f in dec:
